@@ -347,7 +347,8 @@ CLOCKLESS_CLOCKS = [{"kind": "jump", "t0": ANCHOR + 3600.0, "step": 0.75}, {"kin
                     {"kind": "const", "t0": ANCHOR + 5000.0}, {"kind": "jump", "t0": ANCHOR + 100.0, "step": 2.5}]
 
 
-def gen_world(rng: random.Random, logical_sched: bool = False, parallel: bool = False, clockshape: bool = False) -> dict:
+def gen_world(rng: random.Random, logical_sched: bool = False, parallel: bool = False, clockshape: bool = False,
+              layers: bool = False) -> dict:
     nn = rng.choice([3, 4, 5, 8])
     words = rng.sample(WORDS, nn)
     nodes = [[f"n:{w}", w] for w in words]
@@ -396,12 +397,19 @@ def gen_world(rng: random.Random, logical_sched: bool = False, parallel: bool = 
             if rng.random() < 0.85:
                 ep["aux"] = {"cluster_id": rng.choice(clusters)}
             eps.append(ep)
+        # re-added episode ids (an "updated" episode: same id, other text => other vector), first copy in the first
+        # shard, second copy in the last one: what a fan-out over shard views must not confuse
+        for j in range(rng.choice([2, 3, 4])):
+            src = eps[j]
+            eps.append(dict(src, text=" ".join(rng.choice(WORDS) for _ in range(3)),
+                            ts=_iso(BASE_MS - rng.choice([0, 1, 2]) * 86400000).replace("+00:00", "Z")))
         cfg["perf"] = {"enabled": True, "parallel": {"enabled": True, "t1": True, "t2": True, "max_workers": rng.choice([2, 3, 4])}}
         cfg["t2"].update({"clusters_top_m": rng.choice([1, 1, 1, 2]), "k_retrieval": rng.choice([5, 10, 10]),
-                          "exact_recent_days": rng.choice([1, 1, 30]), "sim_threshold": rng.choice([-1.0, -1.0, 0.0]),
+                          "exact_recent_days": rng.choice([1, 1, 30]), "sim_threshold": rng.choice([-1.0, -1.0, -1.0, 0.0]),
                           "owner_scope": rng.choice(["any", "any", "any", "agent"]),
                           "tiers": rng.choice([["exact_semantic", "cluster_semantic", "archive"], ["cluster_semantic", "archive"],
-                                               ["cluster_semantic"], ["cluster_semantic"]])})
+                                               ["exact_semantic", "cluster_semantic", "archive"], ["cluster_semantic", "archive"],
+                                               ["cluster_semantic"]])})
     if logical_sched:
         # scheduler on; only LOGICAL slice budgets can fire (t1_pops/t1_iters/t2_k/t3_ops are compared with `==`, small values
         # are hit by these worlds); quantum_ms/wall_ms are far beyond anything the adversarial clocks of `LOGICAL_CLOCKS` reach,
@@ -414,15 +422,34 @@ def gen_world(rng: random.Random, logical_sched: bool = False, parallel: bool = 
     if rng.random() < 0.5 or clockshape:
         # per-turn time budget read by the health check; 1 ms is the smallest legal value, 1000 ms the documented default
         cfg["budgets"] = {"time_ms": rng.choice([1, 1000, 1000])}
-    if rng.random() < 0.3:
+    if layers:
+        # every optional layer ON over a multi-turn history: GEL (observe/tick/merge/split/promotion), hybrid rerank over
+        # the GEL graph, quality fusion + MMR, reflection; retrieval wide enough that earlier turns create co-activation
+        # edges which later turns rerank with
+        eps = []
+        for i in range(rng.choice([5, 6, 8])):
+            ms = BASE_MS - rng.choice([0, 1, 2, 3]) * 86400000
+            eps.append({"id": f"ep{i}", "text": " ".join(rng.choice(words + WORDS[:3]) for _ in range(rng.choice([2, 3, 4]))),
+                        "owner": rng.choice(agents + ["world"]), "ts": _iso(ms).replace("+00:00", "Z"), "tags": [],
+                        "importance": rng.choice([0.0, 0.5, 1.0])})
+        cfg["graph"] = {"enabled": True, "coactivation_threshold": rng.choice([-1.0, -1.0, 0.0]), "observe_top_k": 64,
+                        "merge": {"enabled": True}, "split": {"enabled": rng.random() < 0.5}, "promotion": {"enabled": rng.random() < 0.5}}
+        cfg["t2"].update({"k_retrieval": rng.choice([3, 5, 10]), "sim_threshold": -1.0, "owner_scope": "any", "exact_recent_days": 30,
+                          "hybrid": {"enabled": True, "use_graph": True, "anchor_top_m": rng.choice([1, 2, 8]),
+                                     "walk_hops": rng.choice([1, 2]), "edge_threshold": rng.choice([0.0, 0.0, 0.01]),
+                                     "lambda_graph": rng.choice([0.25, 0.5]), "damping": 0.5, "degree_norm": rng.choice(["none", "invdeg"]),
+                                     "max_bonus": 0.5, "k_max": 128},
+                          "quality": {"enabled": rng.random() < 0.7, "mmr": {"enabled": rng.random() < 0.6}}})
+        cfg["t3"] = {"allow_reflection": True}
+    elif rng.random() < 0.3:
         cfg["t3"] = {"allow_reflection": True}
     if rng.random() < 0.2 and not parallel:
         # T1 fan-out over a thread pool (thread timing); T2 fan-out is left off (it raises on this tree: DESIGN §5 row 9)
         cfg["perf"] = {"enabled": True, "parallel": {"enabled": True, "t1": True, "t2": False, "max_workers": rng.choice([2, 4])}}
     spec: Dict[str, Any] = {"cfg": cfg, "graph": {"nodes": nodes, "edges": edges}, "episodes": eps}
-    if "t3" in cfg and rng.random() < 0.7:
+    if "t3" in cfg and (rng.random() < 0.7 or layers):
         spec["state_extra"] = {"_planner_reflection_flag": True}
-    nt = rng.choice([2, 3, 5])
+    nt = rng.choice([4, 5, 6]) if layers else rng.choice([2, 3, 5])
     texts = [" ".join(rng.choice(words) for _ in range(rng.choice([1, 2, 3]))) for _ in range(2)]
     turns = []
     for i in range(nt):
@@ -444,7 +471,7 @@ def gen_world(rng: random.Random, logical_sched: bool = False, parallel: bool = 
     elif rng.random() < 0.3:
         sde = None
     return {"spec": spec, "turns": turns, "sched": sched, "logical_sched": logical_sched, "parallel": parallel,
-            "clockshape": clockshape, "sde": sde}
+            "clockshape": clockshape, "layers": layers, "sde": sde}
 
 
 #: clocks for the logical-budget scheduler cases: per-reading steps of 0.05-0.5 s (tens of seconds per turn at most,
@@ -470,12 +497,16 @@ def variants_for(rng: random.Random, case: dict, tier: str) -> Tuple[dict, List[
     hs = [1, rng.randrange(2, 2 ** 31)]
     clocks = [{"kind": "const", "t0": 1.0e6}, {"kind": "creep"}, {"kind": "jump", "step": 50.0}, {"kind": "jump", "step": 4.0e7, "t0": 1.0e9},
               {"kind": "back", "step": 1000.0}, {"kind": "chaos", "step": 1.0e5, "seed": rng.randrange(1000)}]
-    if case.get("parallel"):
+    if case.get("parallel") or case.get("layers"):
         hs += [rng.randrange(2, 2 ** 31) for _ in range(2 if tier == "quick" else 4)]
     vs = [{"name": "hash", "hashseed": h, "clock": bclk, "warm": 0} for h in hs[2:]] + \
          [{"name": "hash", "hashseed": hs[0], "clock": bclk, "warm": 0},
           {"name": "hash", "hashseed": hs[1], "clock": bclk, "warm": 0},
           {"name": "warm", "hashseed": 0, "clock": bclk, "warm": 1}]
+    if case.get("parallel"):
+        # thread-order stream: the same fan-outs completed in prescribed, opposite orders (and a seeded permutation)
+        for o in ["fwd", "rev"] + ([f"shuf:{rng.randrange(1000)}"] if tier != "quick" else []):
+            vs.append({"name": "order:" + o.split(":")[0], "hashseed": 0, "clock": bclk, "warm": 0, "order": o})
     # always at least one clock with macroscopic steps (a leaked elapsed value rounds to 0.0 under const/creep)
     strong = [c for c in clocks if c["kind"] in ("jump", "back", "chaos")]
     first = rng.choice(strong)
@@ -605,20 +636,23 @@ def _deep_flat(x: Any, pre: str = "") -> Dict[str, Any]:
 
 def hard_diffs(a: dict, b: dict, diffs: list) -> Tuple[list, list]:
     """Differences that can NEVER be one of the by-design classes, split off before any attribution:
-      * health.jsonl values differ (same number of records) although apply.jsonl and the utterances are identical
-      * a snapshot / sidecar body that exists in both runs differs although t4.jsonl, apply.jsonl and the utterances are
-        identical (same approved deltas, same version, same turn => the persisted body must be the same)
+      * health.jsonl values differ (same number of records) although the utterances and every stage/turn stream
+        (t1, t2, t4, apply, turn, scheduler) are byte-identical
+      * a snapshot / sidecar body that exists in both runs differs under the same premise (same retrieval, same approved
+        deltas, same version, same turn => the persisted body must be the same)
     -> (hard, rest)"""
     if "crash" in a or "crash" in b:
         return [], diffs
     same = lambda n: a["logs"].get(n) == b["logs"].get(n)  # noqa: E731
-    quiet = a["lines"] == b["lines"] and same("apply.jsonl")
+    # nothing upstream differs: same utterances, and every stage/turn stream is byte-identical (the GEL section of a
+    # snapshot follows retrieval, so t2.jsonl belongs to the premise as much as t4/apply do)
+    quiet = a["lines"] == b["lines"] and all(same(n) for n in CANON_LOGS if n != "health.jsonl")
     hard, rest = [], []
     for d in diffs:
         grp, name, fields = d
         if grp == "logs" and name == "health.jsonl" and "#records" not in fields and quiet:
             hard.append(d)
-        elif grp == "snaps" and "#missing" not in fields and quiet and same("t4.jsonl"):
+        elif grp == "snaps" and "#missing" not in fields and quiet:
             hard.append(d)
         else:
             rest.append(d)
@@ -724,7 +758,7 @@ def fresh_keys(variant: dict, diffs: List[Tuple[str, str, List[str]]]) -> List[T
 
 class E2EComp(Component):
     name = "e2e"
-    budget = {"quick": 8, "thorough": 64, "search": 12}
+    budget = {"quick": 10, "thorough": 65, "search": 15}
 
     def gen(self, rng: random.Random, i: int) -> dict:
         return gen_world(rng)
@@ -757,6 +791,16 @@ def _nontrivial_tags(case: dict, base: dict) -> List[str]:
             t.add("t1_parallel")
         if case.get("clockshape"):
             t.add("ctx_clock_shapes")
+        if case.get("layers"):
+            t.add("all_layers")
+            for l in bytes.fromhex(base["logs"].get("t2.jsonl", "")).decode().splitlines():
+                r = json.loads(l)
+                if isinstance(r.get("hybrid"), dict) and len(r["hybrid"]) > 1:
+                    t.add("hybrid_block_multikey")
+                if r.get("hybrid_used"):
+                    t.add("hybrid_used")
+        if case.get("parallel") and len({e["id"] for e in case["spec"]["episodes"]}) < len(case["spec"]["episodes"]):
+            t.add("duplicate_ids_across_shards")
         if case.get("sde", "0") is None:
             t.add("source_date_epoch_unset")
         if ((case["spec"].get("cfg") or {}).get("budgets") or {}).get("time_ms") == 1:
@@ -785,7 +829,7 @@ def run_e2e(ctx: Ctx, comp: E2EComp, n: int) -> None:
         cases.append((c["case"], c["base"], [c["variant"]]))
     for i in range(n):
         case = {0: lambda: comp.gen(rng, i), 1: lambda: gen_world(rng, parallel=True), 2: lambda: gen_world(rng, logical_sched=True),
-                3: lambda: gen_world(rng, clockshape=True)}[i % 4]()
+                3: lambda: gen_world(rng, clockshape=True), 4: lambda: gen_world(rng, layers=True)}[i % 5]()
         base, vs = variants_for(rng, case, tier)
         cases.append((case, base, vs))
     for ci, (case, base, vs) in enumerate(cases):
@@ -863,7 +907,9 @@ def run_e2e(ctx: Ctx, comp: E2EComp, n: int) -> None:
             for k2, detail in fresh_keys(v, adiffs):
                 ctx.monitor_fail(comp.name, "byte_identical_replay", {"case": acase, "base": abase, "variant": v},
                                  desc + f" ({note}): {detail}", {"diffs": [list(d) for d in adiffs]}, key=k2)
-    for c_, detail_, io_, key_ in deferred:
+    # exactly reproducible first: prescribed thread orders, then scripted clocks, then whatever ran on the real clock/pool
+    rank = lambda q: 0 if q[0]["variant"].get("order") else (1 if q[0]["variant"]["clock"].get("kind") != "real" else 2)  # noqa: E731
+    for c_, detail_, io_, key_ in sorted(deferred, key=rank):
         ctx.monitor_fail(comp.name, "byte_identical_replay", c_, detail_, io_, key=key_)
     ctx.extra.setdefault("e2e", {})["attributed_by_ablation"] = attributed
     ctx.extra["e2e"]["ablation_subprocesses"] = abl_used
